@@ -116,6 +116,14 @@ def transcript_of(data: dict, world: dict) -> dict:
         return {"transcript": [["setup", "exc", type(e).__name__, str(e)[:200]]], "digest": stable_hash("setup-exc"), "notes": notes,
                 "z3_unknown": False, "final": None}
     z3_unknown = False
+    if world.get("sym_align"):
+        # place the symbol counter a few ids below a power of ten, so that symbols created by the
+        # following operations straddle it (orderings by printed id flip there)
+        from exo.core.prelude import Sym
+
+        cur = Sym._unq_count
+        k = len(str(cur))
+        Sym._unq_count = max(cur, 10 ** k - int(world["sym_align"]))
     for rec in sdata["ops"]:
         n0 = len(S.log.events)
         S.apply(rec)
